@@ -850,8 +850,18 @@ def check_c09(run):
 def k3a(run, C):
     import coqterm as ct
     lookup = {o["index"]: o for o in C["obs"]}
-    sel = [n for n, c in enumerate(C["cases"]) if c["kind"] in ("hugecount", "word", "overmax", "valid", "random")
-           and not c["real"].startswith("ABORT")]
+    # arrays of zero-wire-size elements (opaque[0] markers, F1 elements with an empty payload) hold
+    # more elements than input bytes, so the Vec grows past its initial reservation through std's
+    # amortised policy, which the ledger (reservations the decoder asks for) does not model
+    zero_ok = {}
+
+    def ledger_applies(c):
+        i = c["spec"]
+        if i not in zero_ok:
+            zero_ok[i] = not (C["specs"][i][0] == "fixed_validonly" or valgen.spec_has_f1_array(valgen.Ctx(lookup[i]["ast"])))
+        return zero_ok[i]
+    sel = [n for n, c in enumerate(C["cases"]) if c["kind"] in ("hugecount", "word", "overmax", "valid", "random", "wrapcount")
+           and not c["real"].startswith("ABORT") and ledger_applies(c)]
     rng = random.Random(run.seed)
     if len(sel) > (6000 if run.tier == "quick" else 60000):
         sel = sorted(rng.sample(sel, 6000 if run.tier == "quick" else 60000))
